@@ -24,6 +24,8 @@ def mk_array(ns, shape, contents, secret_mask, same_rows=()):
     A = ns.ar.Array
 
     def el(v, s):
+        if s == "F":
+            return ns.fx.PrivValFxp(v / 2.0)          # a fixed-point element representing v/2
         return ns.rt.PrivVal(v) if s else v
     if len(shape) == 1:
         return A([el(v, s) for v, s in zip(contents, secret_mask)])
@@ -38,17 +40,24 @@ def plain(ns, x):
         return [plain(ns, y) for y in x.arr]
     if isinstance(x, ns.rt.LinComb):
         return x.value
-    if isinstance(x, (ns.bo.LinCombBool, ns.fx.LinCombFxp)):
+    if isinstance(x, ns.fx.LinCombFxp):
+        from fractions import Fraction
+        return Fraction(x.lc.value, 1 << ns.fx.resolution)      # the represented number (== an int when it is whole)
+    if isinstance(x, ns.bo.LinCombBool):
         return x.lc.value
     return x
 
 
 def run_history(case, override_idx=None):
     """executes the history; returns (message or None, info). override_idx: dict step -> index tuple"""
-    ns = env.reset(ir.resolve_p(case["p"]), case["b"], 0)
+    has_fxp = len(case["shape"]) == 1 and "F" in case["mask"]
+    ns = env.reset(ir.resolve_p(case["p"]), case["b"], 2 if has_fxp else 0)
     rec = ns.rec
     shape = case["shape"]
     model = copy.deepcopy(case["contents"])
+    if has_fxp:
+        from fractions import Fraction
+        model = [Fraction(v, 2) if s_ == "F" else v for v, s_ in zip(model, case["mask"])]
     arr = mk_array(ns, shape, case["contents"], case["mask"], case.get("same_rows", ()))
     info = {"secret_reads": 0, "write_then_other_read": False, "last_write": None, "oob": 0}
     for step, op in enumerate(case["ops"]):
@@ -162,6 +171,9 @@ def draw_history(draw):
     else:
         contents = [draw(vals) for _ in range(shape[0])]
         mask = [draw(st.booleans()) for _ in range(shape[0])]
+        if draw(st.integers(0, 3)) == 0:
+            # integer and fixed-point elements side by side (e.g. after a constant-index write of a fixed-point value)
+            mask = [draw(st.sampled_from([True, False, "F"])) for _ in range(shape[0])]
     same_rows = []
     if two and shape[0] >= 2 and draw(st.integers(0, 3)) == 0:
         # the usual initialisation Array([row] * n), or one row object used twice: a write at a SECRET row index changes one
@@ -239,6 +251,8 @@ def history_shard(seed, n_examples):
             labels.append("row-copy/store")
         if case.get("same_rows"):
             labels.append("shared-row-objects")
+        if len(case["shape"]) == 1 and "F" in case["mask"]:
+            labels.append("mixed-int-and-fixed-point-elements")
         stats.case(case if nt else None, nt, labels)
         if msg:
             raise core.Violation(case, msg, "history")
